@@ -318,3 +318,7 @@ def rules(chk: Check) -> None:
     r05_23(chk)
     r05_4(chk)
     r05_5(chk)
+    # R05.6: the matching handed back at the LTE velocity is the exact one: the re-evaluation of the upper end of the v+ bracket (cs^2 at T+ instead
+    # of Tn) is entered on a sign change between the very points it then brackets, so it is not silently skipped in favour of the template fallback
+    from .shared import guarded_brackets
+    guarded_brackets(chk, "R05.6", ["hydrodynamics:Hydrodynamics.findMatching", "hydrodynamics:Hydrodynamics.findvwLTE"], floor=2)
